@@ -13,5 +13,5 @@ PROP = {
                'Only LF counts as a line break. The "ts" member is only required to be valid JSON. Inputs are valid UTF-8 as the property states. Second compiler: the same tapes also run against a g++ -O2 ASan/UBSan build of the code under test (engine \'tape-rc (second compiler…)\'), because the two compilers instrument and optimise undefined behaviour differently (e.g. abs(INT64_MIN) is only reported by g++\'s UBSan, and clang can fold such UB into a correct-looking result); failing tapes of that engine are kept as *.gcc.tape and replayed with that build.',
  'assumptions': ['logged strings are valid UTF-8', 'a JSON object with repeated member names is read as an ordered list of pairs'],
  'exhaustive_part': 'every byte 0x00..0x7F, edge code points and snippets logged alone/embedded/doubled in event, field name and field value (1656 records) every run',
- 'tiers': {'quick': [rc(15000), rc(15000, suffix='_gcc')],
+ 'tiers': {'quick': [rc(15000), rc(8000, suffix='_gcc')],
            'thorough': [rc(150000, W), fuzz(60, 2, max_len=6 + 8 * 8), rc(150000, 4, suffix='_gcc')]}}
